@@ -236,7 +236,12 @@ def concretize(segs, val):
 
 
 def hard_fun(x):
-    return (x * x * x + 0x9E3779B97F4A7C15 * x) % W
+    """a word the branching solver cannot decide within its 1 ms: a cubic over the low 64 bits of x, sign-extended
+    (64-bit multipliers: z3 gives up quickly; with 256-bit ones a single check costs seconds of bit-blasting, which its
+    timeout does not interrupt)"""
+    t = x % (1 << 64)
+    v = (t * t * t + 0x9E3779B97F4A7C15 * t) % (1 << 64)
+    return (v - (1 << 64)) % W if v >= (1 << 63) else v
 
 
 def segs_of(data, syms=()):
@@ -701,7 +706,8 @@ def _impl_l2(case):
                 n += len(s[1]) // 2
             elif s[0] == "m":
                 x = syms.setdefault(s[1], z3.BitVec(s[1], 256))
-                out.append(x * x * x + z3.BitVecVal(0x9E3779B97F4A7C15, 256) * x)
+                t = z3.Extract(63, 0, x)
+                out.append(z3.SignExt(192, t * t * t + z3.BitVecVal(0x9E3779B97F4A7C15, 64) * t))
                 n += 32
             else:
                 out.append(syms.setdefault(s[1], z3.BitVec(s[1], 8 * s[2])))
@@ -1348,7 +1354,7 @@ def run(rep, tier):
                 # any other exception class is caught by no clause of SEVM.run and takes the whole test down
                 if not (isinstance(im, list) and len(im) >= 2 and im[0] == 4 and im[1] == 1):
                     name = "".join(chr(x) for x in im[2:]) if isinstance(im, list) and im and im[0] == 4 else str(im)
-                    bad("failing-input", f"{c['sig']}: the unsupported overload does not raise a HalmosException but {name}: SEVM.run does not catch it, every path of the test is lost",
+                    bad("failing-input", f"{c['sig']}: the unsupported overload does not raise a HalmosException but {name}: only a HalmosException ends just this path as stuck (a class no clause of SEVM.run catches takes every path of the test down, InfeasiblePath drops the path silently, an EVM error lets the caller go on)",
                         shown, {"defect": "unsupported-escapes", "exc": name})
             if is_huge(im):
                 rep.count("spec_outcome", "huge-length-outside-model")
